@@ -213,6 +213,8 @@ def corpus_C02(tier):
         dict(n=2, m=2, prob="ros3", rhoend=1e-2, nsamples="alt3", restarts="soft", maxunsucc=1),
         dict(n=2, m=2, prob="ros3", rhoend=1e-2, restarts="hard", maxunsucc=1, nsamples="runs"),
         dict(n=2, m=2, prob="ros3", rhoend=1e-2, restarts="hardnew", maxunsucc=1),
+        dict(n=2, m=2, prob="ros3", rhoend=1e-1, restarts="hardnew", maxunsucc=2, nsamples="3"),
+        dict(n=2, m=3, prob="nl", rhoend=1e-2, nsamples="alt3", npt="2n+1", user_params={"regression.num_extra_steps": 2, "regression.momentum_extra_steps": True}),
         dict(n=3, m=4, prob="nl", rhoend=1e-2, npt="2n+1", nsamples="zero", bounds="both", x0place=["L", "in", "U"]),
         dict(n=2, m=3, prob="nl", rhoend=1e-2, restarts="soft", maxunsucc=1, incnpt=2, nsamples="2"),
         dict(n=2, m=3, prob="nl", rhoend=1e-2, restarts="hard", maxunsucc=2, incnpt=1, npt="n+1"),
@@ -279,6 +281,19 @@ def corpus_C01(tier):
             inst.pop("reg", None)
             inst["user_params"] = {}
             inst["maxfun"] = 25
+        if i % 5 == 2:
+            # internal scaling + averaging at the start of every run + x0 on / beyond upper bounds (un-scaling of an on-bound point rounds)
+            inst.update(bounds="both", scaling=True, nsamples=corpus._pick(rng, ["2", "3"]), x0place=[corpus._pick(rng, ["U", "aboveU", "U", "L"]) for _ in range(inst["n"])])
+            inst.pop("reg", None); inst.pop("proj", None)
+            if i % 10 == 2:
+                inst.update(restarts="hardnew", maxunsucc=3, maxfun=100, rhoend=1e-2)
+        if i % 10 == 3:
+            # bounds together with a user projection, solution in a corner where a box face and the set boundary are both active
+            n = inst["n"] = max(2, inst["n"])
+            inst.update(m=n, prob="target", proj=[corpus._pick(rng, ["ball", "half"])], bounds="both", corner=True, x0place=["in"] * n, maxfun=40, mag=1.0)
+            for k in ("scaling", "npt", "growing", "incnpt", "reg", "nsamples", "boxaway"):
+                inst.pop(k, None)
+            inst["user_params"] = {}
         inst["maxfun"] = max(inst["maxfun"], 20)
         out.append(inst)
     return out
@@ -311,6 +326,10 @@ def corpus_C03(tier):
                 inst["prob"] = "zero"
                 inst["abs_tol"] = 10.0
         out.append(inst)
+    for j in range(6 if tier == "quick" else 80):
+        # parallel initialisation (all points evaluated first, then processed), with a budget that may end inside it
+        out.append(dict(id=310000 + j, seed=int(rng.integers(0, 2 ** 31 - 1)), n=int(rng.integers(2, 4)), m=4, prob="nl", rhoend=1e-2, maxfun=int(corpus._pick(rng, [2, 3, 4, 25])),
+                        nsamples=corpus._pick(rng, ["1", "2"]), user_params={"init.run_in_parallel": True, "init.random_initial_directions": True}))
     for j in range(6 if tier == "quick" else 80):
         out.append(dict(id=300000 + j, seed=int(rng.integers(0, 2 ** 31 - 1)), n=2, m=3, prob="lin", reg="l1", lam=float(corpus._pick(rng, [0.1, 1.0])), restarts="soft",
                         maxunsucc=2, incnpt=2, rhoend=1e-2, maxfun=45, mag=float(corpus._pick(rng, [1.0, 5.0])), timeout=300.0,
@@ -355,6 +374,18 @@ def corpus_C04(tier):
         if i % 5 == 1:
             inst["fault"] = dict(k=int(rng.integers(1, 30)), kind=corpus._pick(rng, ["nan", "pinf", "huge"]))
         out.append(inst)
+    for j in range(10 if tier == "quick" else 150):
+        # regression extra steps at / beyond the number of points (the code caps them), momentum and geometry variants, growing with restarts
+        n = int(rng.integers(1, 4))
+        npt = n + 1 + int(rng.integers(0, 2))
+        up = {"regression.num_extra_steps": npt + int(rng.integers(-1, 2)), "regression.momentum_extra_steps": bool(j % 2 == 0)}
+        inst = dict(id=650000 + j, seed=int(rng.integers(0, 2 ** 31 - 1)), n=n, m=n + 1, prob=corpus._pick(rng, ["nl", "ros3"]) if n == 2 else "nl", npt=npt, rhoend=1e-3,
+                    maxfun=int(rng.integers(15, 70)), user_params=up)
+        if j % 3 == 0:
+            up["regression.increase_num_extra_steps_with_restart"] = 1
+            up["regression.num_extra_steps"] = 1
+            inst.update(restarts="soft", maxunsucc=4, rhoend=1e-1, maxfun=120)
+        out.append(inst)
     # trust-region-increase exits under soft restarts with the budget expiring at every evaluation (few Dykstra sweeps provoke model increases)
     bases = [dict(n=2, m=3, prob="nl", proj=["ball", "ball", "box"], restarts="soft", maxunsucc=3, rhoend=1e-3, user_params={"dykstra.max_iters": 10}),
              dict(n=3, m=4, prob="nl", proj=["ball", "half", "ball"], restarts="soft", maxunsucc=3, rhoend=1e-3, user_params={"dykstra.max_iters": 5})]
@@ -375,6 +406,8 @@ def corpus_C08(tier):
         dict(n=2, m=3, prob="nl", rhoend=1e-2, nsamples="2"),
         dict(n=2, m=3, prob="nl", rhoend=1e-2, npt="2n+1", diag=True),
         dict(n=2, m=3, prob="nl", rhoend=1e-2, proj=["ball", "half"]),
+        dict(n=4, m=5, prob="nl", rhoend=1e-2, growing=1, restarts="soft", maxunsucc=2),
+        dict(n=2, m=2, prob="ros3", rhoend=1e-2, restarts="hardnew", maxunsucc=2),
     ]
     if tier == "thorough":
         bases += [
@@ -429,7 +462,10 @@ def corpus_C10(tier):
         if r == 0:
             inst.update(prob="zres", abs_tol=float(corpus._pick(rng, [1e-6, 1e-2, 1.0])), maxfun=80)
         elif r == 1:
-            inst.update(rel_tol=float(corpus._pick(rng, [1e-1, 0.5, 0.9])), maxfun=60)
+            inst.update(rel_tol=float(corpus._pick(rng, [1e-2, 1e-1, 0.5, 0.9])), maxfun=60, prob=corpus._pick(rng, ["nl", "ros"]), rhobeg=float(corpus._pick(rng, [0.2, 0.5, 1.0])))
+            if inst["prob"] == "ros":
+                inst.update(n=2, m=2)
+            inst.pop("scaling", None)
         elif r == 2:
             corpus.with_restarts(rng, inst)
             inst.update(rhoend=float(corpus._pick(rng, [1e-1, 1e-2, 1e-3])), maxfun=int(rng.integers(40, 160)), prob="ros3", n=2, m=2)
@@ -463,6 +499,18 @@ def corpus_C11(tier):
             inst["rhoend"] = 1e-2
             inst["maxfun"] = int(rng.integers(40, 140))
         out.append(inst)
+    for j in range(12 if tier == "quick" else 200):
+        inst = dict(id=900000 + j, seed=int(rng.integers(0, 2 ** 31 - 1)), n=2, m=3, prob=corpus._pick(rng, ["lin", "nl"]), bounds="both", scaling=True, x0place=["in", "in"],
+                    restarts="soft", maxunsucc=3, rhoend=1e-2, maxfun=int(rng.integers(35, 110)), diag=True, npt=corpus._pick(rng, ["n+1", "2n+1"]))
+        out.append(inst)
+    for j in range(12 if tier == "quick" else 200):
+        # reduced initial set that grows by new directions each iteration, x0 on several bounds, budget ending soon after the set is complete
+        n = 3 if j % 3 else 2
+        places = ["L"] * n
+        places[int(rng.integers(0, n))] = corpus._pick(rng, ["in", "U"])
+        inst = dict(id=910000 + j, seed=int(rng.integers(0, 2 ** 31 - 1)), n=n, m=n + 2, prob="nl", bounds="both", x0place=places, growing=1, rhobeg=0.5, rhoend=1e-3,
+                    maxfun=int(corpus._pick(rng, [6, 8, 10, 14, 20])), user_params={"growing.num_new_dirns_each_iter": 1, "growing.do_geom_steps": bool(j % 4 == 0)})
+        out.append(inst)
     return out
 
 
@@ -484,6 +532,17 @@ def corpus_C18(tier):
             if i % 16 == 0:
                 up.update({"growing.reset_rho": True})
             inst["user_params"] = up
+        out.append(inst)
+    for j in range(8 if tier == "quick" else 120):
+        n = int(rng.integers(1, 4))
+        inst = dict(id=820000 + j, seed=int(rng.integers(0, 2 ** 31 - 1)), n=n, m=n + 1, prob="target1", x0atmin=True, restarts=corpus._pick(rng, ["soft", "soft", "hard"]), maxunsucc=3,
+                    rhoend=1e-2, rhobeg=0.1, maxfun=int(rng.integers(15, 60)), diag=True, tdist=1.0)
+        if j % 2:
+            inst.update(bounds="both", x0place=["in"] * n)
+        out.append(inst)
+    for j in range(8 if tier == "quick" else 120):
+        inst = dict(id=830000 + j, seed=int(rng.integers(0, 2 ** 31 - 1)), n=2, m=2, prob="ros3", restarts="soft", maxunsucc=3, rhoend=1e-2, maxfun=80, diag=True,
+                    fault=dict(k=int(rng.integers(4, 30)), kind=corpus._pick(rng, ["pinf", "nan", "huge"])))
         out.append(inst)
     # the radius cap: a minimiser ~1e13 away makes delta grow by very successful steps until it reaches 1e10
     for j in range(4 if tier == "quick" else 40):
